@@ -16,7 +16,7 @@ RULE = ("two-stage runs: stage 1 builds the generated system fault-free, stage 2
 ASSUMPTIONS = wa.ASSUMPTIONS
 REAL_VS_STUB = wa.REAL_VS_STUB
 PROBES = wa.PROBES + ["atoms_supplied", "centres_supplied", "supplied_and_generated_in_one_system",
-                      "ignored_molecule_present", "ignored_molecule_not_last", "earlier_call_same_input_path", "pdb_input", "synthetic_centres", "ligand_placed_with_host", "resid_restart_inside_molecule", "split_with_supplied_atoms", "start_on_supplied_residue", "pdb_input_without_box_record", "relative_input_path_with_decoy_next_to_topology", "ligand_on_cyclic_host", "atom_number_column_restarts", "moltype_named_like_residue"]
+                      "ignored_molecule_present", "ignored_molecule_not_last", "earlier_call_same_input_path", "pdb_input", "synthetic_centres", "ligand_placed_with_host", "resid_restart_inside_molecule", "split_with_supplied_atoms", "start_on_supplied_residue", "pdb_input_without_box_record", "relative_input_path_with_decoy_next_to_topology", "ligand_on_cyclic_host", "atom_number_column_restarts", "moltype_named_like_residue", "resname_with_plus_sign"]
 PROFILE = {"p_atomno_restart": 0.15, "p_rel_inputs": 0.12, "p_synth_centres": 0.25, "sol_p": 0.25, "p_pdb": 0.2, "p_pre_call": 0.3, "n_moltypes": (1, 3), "n_entries": (2, 4), "max_molecules": 8, "max_count": 3, "maxres": 7,
            "box_modes": ["cubic", "cubic", "noncubic", "density"], "faults": ["step", "start", "overlap"],
            "maxiter": [0, 1, 2, 800], "dilute_hint": True}
@@ -78,6 +78,22 @@ def gen_job(verif_seed, tier, index):
                 job["two_stage"] = ok
                 job["moltype_named_like_residue"] = True
                 return job
+    if st.gen.random() < 0.05:
+        # a residue name with a character that means something in patterns (ion names like NA+), named with -res
+        spec = job["spec"]
+        used = sorted({r for m in spec["moltypes"] for r in m["residues"] if any(n == m["name"] for n, _ in spec["molecules"])})
+        rn = st.gen.choice(used)
+        new = rn[:2] + "+"
+        if new not in spec["restypes"] and not any(m.get("restype_override") or m.get("residue_override") for m in spec["moltypes"]):
+            spec["restypes"][new] = spec["restypes"].pop(rn)
+            spec["restypes"][new]["name"] = new
+            for m in spec["moltypes"]:
+                m["residues"] = [new if r == rn else r for r in m["residues"]]
+            ok = jobgen.add_coordinates(job, st.gen, dict(PROFILE, coord_modes=["res", "meta_res", "res_prefix"], p_pdb=0.0,
+                                                          p_synth_centres=0.0), force_res=[new])
+            job["two_stage"] = ok
+            job["resname_with_plus"] = True
+            return job
     if st.gen.random() < 0.08:
         # -split together with an atom-level structure (whole residues supplied, the rest built)
         ok = jobgen.add_coordinates(job, st.gen, dict(PROFILE, coord_modes=["prefix", "prefix", "full"], p_synth_centres=0.0))
@@ -99,6 +115,8 @@ def _nt(j, r):
         r["probes"]["split_with_supplied_atoms"] = 1
     if j.get("ligand_on_cyclic_host") and j["opts"].get("ligands"):
         r["probes"]["ligand_on_cyclic_host"] = 1
+    if j.get("resname_with_plus"):
+        r["probes"]["resname_with_plus_sign"] = 1
     if j.get("moltype_named_like_residue"):
         r["probes"]["moltype_named_like_residue"] = 1
     if j.get("atom_numbers_restart"):
